@@ -198,7 +198,8 @@ fn b_count_fill_set() {
     let hi: usize = kani::any();
     // (`Lower::free_all` is the only caller and passes ranges relative to the bitfield)
     let base: usize = 0;
-    kani::assume(lo <= hi && hi <= Bitfield::LEN);
+    // (free_all only passes non-empty ranges, or 0..0)
+    kani::assume((lo < hi || hi == 0) && hi <= Bitfield::LEN);
     let v: bool = kani::any();
     b.set(FrameId(base * Bitfield::LEN + lo)..FrameId(base * Bitfield::LEN + hi), v);
     let post = rows_of(&b);
